@@ -225,6 +225,8 @@ func cmdCheck(args []string) int {
 				n = q.Unit + ".safety"
 			} else if q.Group == "nopanic" {
 				n = q.Unit + ".nopanic"
+			} else if q.Group == "locks" {
+				n = q.Unit + ".lock_discipline"
 			}
 			if n == f.Obligation {
 				q.Known = true
